@@ -191,3 +191,47 @@ func VerifC09_Batch(n, reduced int) {
 	}
 	verifAssert("no extra handler runs", len(w.log) == nexec)
 }
+
+// VerifC09_Versions: an executor configured with an arbitrary set of ns
+// supported versions (1.0..1.6, symbolic); a request at an arbitrary version is
+// executed iff its version is a member of the set, otherwise rejected with a
+// single failed item and no handler run.
+func VerifC09_Versions(ns int) {
+	w := &c09World{plIdx: map[kmip.OperationPayload]int{}, reduced: true}
+	exec := NewBatchExecutor()
+	exec.Route(c09OpA, w.handler())
+	var set []kmip.ProtocolVersion
+	for i := 0; i < ns; i++ {
+		m := verifNondetInt32("s.minor")
+		verifAssume(m >= 0 && m <= 6)
+		set = append(set, kmip.ProtocolVersion{ProtocolVersionMajor: 1, ProtocolVersionMinor: m})
+	}
+	exec.SetSupportedProtocolVersions(append([]kmip.ProtocolVersion(nil), set...)...)
+	v := kmip.ProtocolVersion{ProtocolVersionMajor: verifNondetInt32("major"), ProtocolVersionMinor: verifNondetInt32("minor")}
+	member := false
+	for _, s := range set {
+		member = verifOr(member, s == v)
+	}
+	req := &kmip.RequestMessage{}
+	req.Header.ProtocolVersion = v
+	req.Header.BatchCount = 1
+	it := &c09Item{op: c09OpA}
+	pl := kmip.NewUnknownPayload(it.op)
+	w.plIdx[pl] = 0
+	w.items = append(w.items, it)
+	req.BatchItem = []kmip.RequestBatchItem{{Operation: it.op, RequestPayload: pl}}
+	resp := exec.HandleRequest(context.Background(), req)
+	verifAssert("response", resp != nil && len(resp.BatchItem) == 1)
+	if resp == nil || len(resp.BatchItem) != 1 {
+		return
+	}
+	if member {
+		verifReach("supported")
+		verifAssert("supported version: the item is executed", it.executed == 1)
+		verifAssert("supported version: version echoed", resp.Header.ProtocolVersion == v)
+	} else {
+		verifReach("unsupported")
+		verifAssert("unsupported version: no handler runs", it.executed == 0)
+		verifAssert("unsupported version: single failed item", resp.BatchItem[0].ResultStatus == kmip.ResultStatusOperationFailed && resp.BatchItem[0].ResultReason == kmip.ResultReasonInvalidMessage)
+	}
+}
